@@ -292,6 +292,8 @@ def embeddings():
         ("index/array-of-struct", lambda mk: ["Array", 3, ["Struct", [["m", mk(["bin", "+", ["path", ["_index"]], ["k", 1]])]]]], False),
         ("index/array", lambda mk: ["Array", 3, mk(["bin", "+", ["path", ["_index"]], ["k", 1]])], False),
         ("index/nested", lambda mk: ["Array", 2, ["Struct", [["s", ["Struct", [["m", mk(["bin", "+", ["path", ["_", "_index"]], ["k", 1]])]]]]]]], False),
+        ("index/jagged", lambda mk: ["Array", 3, ["Array", ["bin", "+", ["path", ["_index"]], ["k", 1]], mk(["bin", "+", ["path", ["_index"]], ["k", 1]])]], False),
+        ("index/two-levels", lambda mk: ["Array", 2, ["Struct", [["h", mk(["bin", "+", ["path", ["_index"]], ["k", 1]])], ["x", ["Array", 3, mk(["bin", "+", ["path", ["_index"]], ["k", 1]])]]]]], False),
         ("index/no-repeater", lambda mk: ["Struct", [["m", mk(["bin", "+", ["path", ["_index"]], ["k", 1]])]]], False),
     ]
 
